@@ -26,11 +26,11 @@ CLAIMED = {
    ref="DESIGN.md §4 C18", note=TRUST+" Without the race tier, a missing lock around seam-free code shows only through its effects at statement granularity; 'no data race' proper is decided by the race tier (thorough). porcupine timeouts are inconclusive, never reported.",
    tech="deterministic simulation of goroutine interleavings (seeded scheduler over simulated sync primitives, pools and pipes), linearizability checking, deterministic race detection"),
  "C20": dict(engine="order-world", cat="exploration",
-   text="Seeded (base program, edit script) pairs committed as HEAD~ and HEAD of a scratch git repository; cmd/thriftbreak's run() executed in readable and JSON mode under seeded map-iteration orders of the comparison and the compiler; oracles: the reported set equals an executable reference model of the five documented breaking rules (fields matched by id, declared type names compared as written), each diagnostic attributed to the changed file, error exactly when something is reported, nothing for identical or compatible versions, same set across schedules and output modes.",
+   text="Seeded (base program, edit script) pairs committed as HEAD~ and HEAD of a scratch git repository (merge commits, dirty or linked work trees, submodule entries, executable files, several ways of naming the repository); cmd/thriftbreak's run() executed in readable and JSON mode under seeded map-iteration orders of the comparison and the compiler; oracles: the reported set equals an executable reference model of the five documented breaking rules (fields matched by id, declared type names compared as written), each diagnostic attributed to the changed file, error exactly when something is reported, nothing for identical or compatible versions, same set across schedules and output modes.",
    ref="DESIGN.md §4 C20", note=TRUST+" The reference model progen.Breaking is trusted; renames are not generated; HEAD always compiles; a reported line is matched by file and leading quoted names, not wording.",
    tech="deterministic simulation of map-iteration order over the real linter on real two-commit git histories; reference model as oracle"),
  "C10": dict(engine="order-world", cat="exploration",
-   text="Seeded (program, option set) pairs compiled and generated repeatedly into fresh directories, each time under another seeded map-iteration order at every range-over-map site of the compiler and the generator (plus reflect MapKeys), with an in-process capturing service generator; oracles: same success/failure, same set of output paths, same sha256 of every file, same plugin request up to the numbering of module and service ids.",
+   text="Seeded (program, option set) pairs compiled and generated repeatedly into fresh or deliberately stale directories (also through the real command line), each time under another seeded map-iteration order at every range-over-map site of the compiler and the generator (plus reflect MapKeys), with an in-process capturing service generator; oracles: same success/failure, same set of output paths, same sha256 of every file, same plugin request up to the numbering of module and service ids.",
    ref="DESIGN.md §4 C10", note=TRUST+" Map iteration inside third-party code is not seamed (text/template sorts keys). Cross-process determinism is argued through the seam: map order is the generator's only per-process nondeterminism (no clock, randomness or goroutines in compile/ and gen/; see the seam report in the evidence).",
    tech="deterministic simulation of map-iteration order (seeded permutations at every range-over-map site), cross-schedule comparison of output hashes"),
  "C07": dict(engine="order-world", cat="exploration",
@@ -38,7 +38,7 @@ CLAIMED = {
    ref="DESIGN.md §4 C07", note=TRUST+" The reference model (progen/model.go) is trusted for the generated sub-language; ambiguous programs are not generated; constant references are type-compatible by construction.",
    tech="deterministic simulation of the linker's resolution order (seeded map-iteration and definition orders) with a reference model as oracle"),
  "C04": dict(engine="wire-world", cat="exploration",
-   text="Seeded runs over every struct-like type of the schema corpus regenerated from the tree's own templates: byte strings (encodings of valid reflected Go values, schema-evolution edits, byte-level mutations) decoded through FromWire(Decode) and through T.Decode over a simulated reader under seeded delivery schedules, peer death and I/O errors; Go values (valid and damaged) serialized through both serializers; oracles: equal values whenever both accept, value-based acceptance implies streaming acceptance, independence from segmentation and seekability, faults inside the struct never accepted, serializers fail together or produce encodings that decode to equal values.",
+   text="Seeded runs over every struct-like type of the schema corpus regenerated from the tree's own templates: byte strings (encodings of valid reflected Go values, schema-evolution edits, byte-level mutations) decoded through FromWire(Decode) and through T.Decode over a simulated reader under seeded delivery schedules, peer death and I/O errors, also after earlier (possibly rejected) decodes in the same process and into receivers that already hold a message; Go values (valid and damaged) serialized through both serializers; oracles: equal values whenever both accept, value-based acceptance implies streaming acceptance, independence from segmentation and seekability, faults inside the struct never accepted, serializers fail together or produce encodings that decode to equal values.",
    ref="DESIGN.md §4 C04", note=TRUST+" Container counts above 32768 in mutated inputs are capped by the harness (C13's territory). Nothing is asserted about which inputs must be rejected.",
    tech="deterministic simulation of the caller-supplied reader/writer (seeded delivery schedules and fault injection) over regenerated code; differential oracle between the two paths"),
  "C12": dict(engine="wire-world", cat="exploration",
@@ -46,7 +46,7 @@ CLAIMED = {
    ref="DESIGN.md §4 C12", note=TRUST+" Legacy names stay below 2^24 bytes; a stream that ends early is judged as the shorter input it is; nothing is demanded when an injected I/O error hits the two-byte framing peek.",
    tech="deterministic simulation of transport and peer (seeded segmentation, live pipe between client and server tasks, fault injection), reference codec as oracle"),
  "C03": dict(engine="wire-world", cat="exploration",
-   text="Seeded search over (wire type, byte string) inputs, each decoded by the random-access reader with all lazy containers forced and then re-decoded and skipped under seeded delivery schedules of a simulated reader (segmentation incl. 1-byte and zero-length reads, EOF delivered with data, seekable or not) and injected faults (peer death at an offset, I/O error at an offset); invariants: no panic, bounded reader calls, canonical re-encoding by an independent encoder and by the library, skip/decode length agreement, delivery independence, faults inside the value are never accepted.",
+   text="Seeded search over (wire type, byte string) inputs, each decoded by the random-access reader with all lazy containers forced and then re-decoded and skipped under seeded delivery schedules of a simulated reader (segmentation incl. 1-byte and zero-length reads, EOF delivered with data, seekable or not) and injected faults (peer death at an offset, I/O error at an offset, alone or together with the bytes before it; seekers whose Seek fails or whose end is still growing), also from sources the caller owns (a bytes.Buffer refilled after the read, a bytes.Reader whose own cursor stands elsewhere) and after earlier decodes in the same process; invariants: no panic, bounded reader calls, canonical re-encoding by an independent encoder and by the library, skip/decode length agreement, delivery independence, faults inside the value are never accepted.",
    ref="DESIGN.md §4 C03", note=TRUST+" The call budget 1024*len+65536 stands for termination; nothing is required of Skip on a seekable reader that was cut short.",
    tech="deterministic simulation of the caller-supplied reader (seeded delivery schedules and fault injection), reference encoder as oracle"),
  "C16": dict(engine="plugin-world", cat="fault_enumeration",
